@@ -953,13 +953,21 @@ def real_samples(ctx, rep, states, ondisk_uri, ondisk_text, front, panicking=())
         if real["framing"]:
             ctx.violation("real `garden lsp` process: a response is badly framed (Content-Length does not match the body)", {"history": msgs[:6], "framing_error": real["framing"]})
             continue
+        after_shutdown = any(isinstance(m, dict) and m.get("method") == "shutdown" for m in msgs)
+        where = "after `shutdown`" if after_shutdown else "in a session without `shutdown`"
         if not real["alive"]:
-            raise Machinery(f"adapter drift: real server died (rc={real['rc']}) on a history the in-process adapter survives")
+            # the real process is the product: its message handler answers this history (in-process), the process does not
+            ctx.violation(f"real `garden lsp` process stops answering {where} although its message handler answers every request",
+                          {"history": msgs[:8], "exit": real["rc"], "responses_received": len(real["out"])}, cli_cmd="garden lsp  (Content-Length framed messages on stdin)")
+            continue
         flat = [o for x in inproc["results"] for o in x["out"]]
         a, b = shape(flat), shape(real["out"])
         # definition answers inside built-in files differ by design (temp copies): shapes ignore results
         if a != b:
-            raise Machinery(f"adapter drift: real server output differs in shape from the in-process adapter: {[x for x in a if x not in b][:3]} vs {[x for x in b if x not in a][:3]}")
+            ctx.violation(f"real `garden lsp` process sends other messages than its message handler produces {where}",
+                          {"history": msgs[:8], "only_from_handler": [x for x in a if x not in b][:5], "only_from_process": [x for x in b if x not in a][:5]},
+                          cli_cmd="garden lsp  (Content-Length framed messages on stdin)")
+            continue
         if real["rc"] != 0:
             raise Machinery(f"real server exits with {real['rc']} at end of input")
         # exit status
